@@ -10,10 +10,11 @@
   Part 2  TREE LEVEL: `Impl.repr : Rep → PT` (Format of every type, leaves = the token texts of part 1) followed by
           `PT.den` (reader of the printed sub-language) is the identity on meanings for every printable
           representation.  `Rep.printable` is the decidable class: numbers under the 15-character guard, strings
-          without holes over Unicode scalars, single-valued dict keys, no attribute named `*`, no hole at either end
-          of an array.
+          without holes over Unicode scalars, single-valued dict keys, no attribute named `*`, no attribute `x`
+          together with `&x`, no hole at either end of an array.
           Without the hypothesis the statement is false (`C12_full_false`); the witnesses are the open findings
-          KF-string-holes-print, KF-dict-dupkey-print, KF-string-nonscalar-print and KF-star-attr-print.
+          KF-string-holes-print, KF-dict-dupkey-print, KF-string-nonscalar-print, KF-star-attr-print and
+          KF-tuple-amp-counterpart.
   Part 3  the reader before the repairs (`Old`): the two defects machine-checked on their witnesses.
   What is NOT proved here: that `PT.den` agrees with arr.ai's real parser on the printed texts (structure of
   brackets, commas, operator precedence of `-` and `\`): that tie is the correspondence run of ./check only.
@@ -147,8 +148,10 @@ theorem bundle_config (isPrint : Nat → Bool) (root file : List Nat)
   have i2 : isIdent [109, 97, 105, 110, 95, 102, 105, 108, 101] = true := by decide
   have n1 : nameStr [109, 97, 105, 110, 95, 114, 111, 111, 116] = "main_root" := by decide
   have n2 : nameStr [109, 97, 105, 110, 95, 102, 105, 108, 101] = "main_file" := by decide
+  have ap : ampPair [[109, 97, 105, 110, 95, 114, 111, 111, 116], [109, 97, 105, 110, 95, 102, 105, 108, 101]] = false := by
+    decide
   simp [bundleConfigText, PT.den, PT.denAttrs, parseName, i1, i2, n1, n2, h1.1, h2.1, hp1, hp2,
-    utf8_roundtrip root hr, utf8_roundtrip file hf, readOff]
+    utf8_roundtrip root hr, utf8_roundtrip file hf, readOff, ap]
 
 /-! ### Part 2 — tree level -/
 
@@ -167,6 +170,9 @@ def surrogateString : Rep := .str 0 [0xD800]
 /-- KF-star-attr-print: `//tuple({'*': 1})` — the attribute name `*` is the wildcard marker of tuple literals -/
 def starTuple : Rep := .tup [([42], .num 1)]
 
+/-- KF-tuple-amp-counterpart: `('': 1, '&': <<'a'>>)` — an attribute and its view counterpart `&x` -/
+def ampTuple : Rep := .tup [([], .num 1), ([38], .bytes 0 [97])]
+
 theorem C12_full_false : ¬ C12_full := by
   intro hf
   have := hf dupKeyDict
@@ -177,6 +183,10 @@ theorem dict_multivalued_key_is_rejected : (Impl.repr dupKeyDict).den = none := 
 
 /-- `('*': 1)` is rejected ("Wildcard attr cannot have a name") -/
 theorem star_attribute_is_rejected : (Impl.repr starTuple).den = none := by decide
+
+/-- the model reader does not commit to a value for a tuple literal naming both `x` and `&x` (the evaluator keeps
+both when every value is a literal and strips the counterpart otherwise) -/
+theorem amp_counterpart_is_outside_the_fragment : (Impl.repr ampTuple).den = none := by decide
 
 /-- the hole markers are printed as U+FFFD inside the quotes: the text reads back as a dense string -/
 theorem string_holes_read_back_dense :
@@ -196,7 +206,7 @@ def sample : Rep :=
         ([], .rel [[120], [121]] [[.num 1, .tup []], [.num 2, .str 0 [233]]])]
 
 example : sample.printable = true ∧ dupKeyDict.printable = false ∧ holeyString.printable = false
-    ∧ surrogateString.printable = false ∧ starTuple.printable = false := by decide
+    ∧ surrogateString.printable = false ∧ starTuple.printable = false ∧ ampTuple.printable = false := by decide
 
 /-- what `arrai eval` writes at top level (pkg/arrai/out.go): raw for strings and byte arrays, nothing for the
 empty set, the printed form for everything else -/
